@@ -47,6 +47,9 @@ def run(prog, chk):
     chk.rule("C13.e", "TBL: Socket::send/recv report would-block as -1 with error 0; write, read and the drain arm treat (-1, error 0) as retry, (-1, error) and 0 as closed", floor=5)
     chk.rule("C13.f", "AST: *postponed is _sendBuffer.size() on the buffered paths and 0 on the fully-sent and failed paths", floor=3)
     chk.rule("C13.g", "ORD: onWrite only on the backlog-empty edge, after the interest set was recomputed; the client is not used after a callback", floor=2)
+    # the send backlog lives in a Buffer: a window that leaves its allocation or loses its start loses or duplicates pending bytes
+    from . import lin_buffer, c08
+    lin_buffer.run(prog, chk, c08.methods(prog), rid="C13.i")
     chk.rule("C13.h", "ORD: when the interest set of a socket shrinks (suspend), Poll::set prunes the removed flags from the events already "
                       "buffered from the current epoll_wait round, computing them from the registered flags before these are overwritten", floor=1)
     from . import c14
